@@ -28,7 +28,7 @@ fn monotone(ctx: &Ctx, maxlen: usize) -> (u64, u64) {
         ("(1.2,3,20,3)", SetSketchParams::new(1.2, 3, 20., 3)),
         ("(1.2,64,20,400)", SetSketchParams::new(1.2, 64, 20., 400)),
     ];
-    let nsym = 8usize; // 6 items, a burst, a merge
+    let nsym = 9usize; // 6 items, a burst, a merge with a 30-item sketch, a merge with a 3-item sketch
     let mut streams = 0u64;
     let mut steps = 0u64;
     for (pname, p) in params {
@@ -50,6 +50,10 @@ fn monotone(ctx: &Ctx, maxlen: usize) -> (u64, u64) {
                     for x in 500u64..530 {
                         other.sketch(&x).unwrap();
                     }
+                    let mut other2 = new_ss::<u16>(p);
+                    for x in 600u64..603 {
+                        other2.sketch(&x).unwrap();
+                    }
                     let mut prev = sk.get_cardinal_stats().0;
                     for (i, s) in seq.iter().enumerate() {
                         match s {
@@ -59,7 +63,8 @@ fn monotone(ctx: &Ctx, maxlen: usize) -> (u64, u64) {
                                     sk.sketch(&x).unwrap();
                                 }
                             }
-                            _ => sk.merge(&other).unwrap(),
+                            7 => sk.merge(&other).unwrap(),
+                            _ => sk.merge(&other2).unwrap(),
                         }
                         let e = sk.get_cardinal_stats().0;
                         if !(e >= prev) {
@@ -82,7 +87,7 @@ fn monotone(ctx: &Ctx, maxlen: usize) -> (u64, u64) {
             if let Some((seq, w)) = bad {
                 ctx.violation(
                     &format!("monotone:{}", pname),
-                    &format!("SetSketcher<u16> {}: stream {:?} (0-5 items, 6 burst, 7 merge): {}", pname, seq, w),
+                    &format!("SetSketcher<u16> {}: stream {:?} (0-5 items, 6 burst, 7 merge with a 30-item sketch, 8 merge with a 3-item sketch): {}", pname, seq, w),
                     json!({"kind": "monotone", "params": pname, "seq": seq}),
                 );
                 break;
@@ -353,6 +358,9 @@ pub fn run(ctx: &Ctx) -> i32 {
                 case,
             );
         }
+        if i % 11 == 2 {
+            ctx.sample(json!({"accuracy_cfg": {"b": cfg.b, "q": cfg.q, "m": cfg.m, "n": cfg.n, "sets": cfg.t, "first_set_ids_start_at": b0.to_string()}, "mean_relative_error": o.rel_bias, "limit_2rsd2": bias_limit, "spread_over_rsd": o.spread_ratio}));
+        }
         details.push(json!({"b": cfg.b, "q": cfg.q, "m": cfg.m, "n": cfg.n, "registers": if cfg.wide { "u32" } else { "u16" }, "with_repetition": cfg.repeat, "sets": cfg.t,
             "relative_bias": o.rel_bias, "bias_se": o.bias_se, "limit_2rsd2": bias_limit, "spread_over_rsd": o.spread_ratio, "spread_se": o.spread_se, "rsd": o.rsd, "parallel_max_rel_diff": o.par_max_rel_diff}));
     }
@@ -361,7 +369,7 @@ pub fn run(ctx: &Ctx) -> i32 {
     let coverage = json!({
         "evaluations": streams + par.real_runs + sets,
         "distinct_nontrivial": par.distinct_sums + details.len() as u64,
-        "rule": "monotone: every stream of length 5 (6) over {6 items, a burst of 12 items, a merge with a fixed sketch} for 5 parameter sets, estimate non-decreasing after every step (exact); parallel estimator: for m<=9 (11) and 3 bases, ALL Catalan(m-1) bracketings of the sum of the m register terms are enumerated (the reduction orders a rayon pool can realise), every one must agree with the sequential estimate within m*2^-52 relative, and the real get_cardinal_estimate run under pools of 1,2,3,4,8,16 threads must be a member of the modelled outcome set (trace validation); accuracy: n in {1,2,10,1e3,1e5,(1e6)} x m in {64,256,(1024,4096)} x 3 (b,q) x u16/u32 x with/without repetition, T disjoint sets each (T>=36m where the item budget allows): |mean(n^/n)-1| <= 2 rsd^2 + 6 se, |sd/rsd-1| <= 0.15 + 6 se, confirmed on a 4x larger fresh block; distinct = distinct bracketing sums + configurations",
+        "rule": "monotone: every stream of length 5 (6) over {6 items, a burst of 12 items, merges with two different fixed sketches} for 5 parameter sets, estimate non-decreasing after every step (exact); parallel estimator: for m<=9 (11) and 3 bases, ALL Catalan(m-1) bracketings of the sum of the m register terms are enumerated (the reduction orders a rayon pool can realise), every one must agree with the sequential estimate within m*2^-52 relative, and the real get_cardinal_estimate run under pools of 1,2,3,4,8,16 threads must be a member of the modelled outcome set (trace validation); accuracy: n in {1,2,10,1e3,1e5,(1e6)} x m in {64,256,(1024,4096)} x 3 (b,q) x u16/u32 x with/without repetition, T disjoint sets each (T>=36m where the item budget allows): |mean(n^/n)-1| <= 2 rsd^2 + 6 se, |sd/rsd-1| <= 0.15 + 6 se, confirmed on a 4x larger fresh block; distinct = distinct bracketing sums + configurations",
         "samples": [
             {"monotone_stream": [0, 6, 3, 7, 3], "meaning": "item 1, burst, item 4, merge, item 4"},
             {"bracketings": {"m": 4, "terms": "b^-k_i of the 4 registers", "trees": 5}},
